@@ -10,6 +10,7 @@ import json
 from ..gen import jsongen as g
 from ..ref import canonjson as ref
 from ..report import h64
+from ..worker import handle_crash
 
 PROPERTY = "C01"
 RULE = ("value ASTs generated in Python (boundary alphabet of control/astral/BMP-edge characters, "
@@ -77,13 +78,10 @@ def to_plain(v):
 def judge(ctx, v, text, reply, spelling_kind):
     rep = ctx.rep
     bad = g.contains_bad(v)
-    if "ok" not in reply:
-        kind = "panic" if "panic" in reply else "died" if "died" in reply else "hang" if \
-            "hang" in reply else "op-error"
-        if kind == "op-error":
-            raise RuntimeError("unexpected probe reply %r" % (reply,))
-        rep.violation(kind, reply.get("at") or text[:80], reply, {"op": "canonical_json", "text": text})
+    if handle_crash(rep, reply, {"op": "canonical_json", "text": text}):
         return
+    if "ok" not in reply:
+        raise RuntimeError("unexpected probe reply %r" % (reply,))
     r = reply["ok"]
     points = ["de", "tcv"] + (["map"] if isinstance(v, dict) else [])
     if bad:
